@@ -7,7 +7,7 @@ Import ListNotations.
 Open Scope string_scope.
 
 (* let f = fun x =>
-       if x == 1 then [x + 2 * 3, -x]
+       if x == 1 then [x + 2 * 3, -x, %string/replace% x "" (import "lib.ncl")]
        else { a = "s%{x}", "b c" = f.g 'Foo ('Bar null) }
    in (p && !q | Number -> Array C) *)
 Definition ex_core : term :=
@@ -16,7 +16,8 @@ Definition ex_core : term :=
        (Fun [Pat None (PAny "x")]
           (If (Op (ONamed "(==)") [Var "x"; Num (1 # 1)])
               (Array [Op (ONamed "(+)") [Var "x"; Op (ONamed "(*)") [Num (2 # 1); Num (3 # 1)]];
-                      Op (ONamed "(-)") [Num (0 # 1); Var "x"]])
+                      Op (ONamed "(-)") [Num (0 # 1); Var "x"];
+                      Op (ONamed "string/replace") [Var "x"; Chunks []; ImportPath "lib.ncl" "Nickel"]])
               (Record []
                  [FDef [PId "a"] empty_fmeta (Some (Chunks [CLit "s"; CExpr (Var "x") 0]));
                   FDef [PId "b c"] empty_fmeta
@@ -34,43 +35,45 @@ Ltac in_cases :=
 
 Ltac core_tac :=
   lazymatch goal with
-  | |- core _ _ (App (Op (ONamed "(&&)") [_]) [_]) => apply C_lazy; [reflexivity | core_tac | core_tac]
-  | |- core _ _ (App (Op (ONamed "(||)") [_]) [_]) => apply C_lazy; [reflexivity | core_tac | core_tac]
-  | |- core _ _ (App _ _) =>
+  | |- core _ _ _ (App (Op (ONamed "(&&)") [_]) [_]) => apply C_lazy; [reflexivity | core_tac | core_tac]
+  | |- core _ _ _ (App (Op (ONamed "(||)") [_]) [_]) => apply C_lazy; [reflexivity | core_tac | core_tac]
+  | |- core _ _ _ (App _ _) =>
       apply C_app; [discriminate | core_tac | in_cases; core_tac | intros; discriminate]
-  | |- core _ _ (Op (ONamed "bool/not") [_]) => apply C_not; core_tac
-  | |- core _ _ (Op (ONamed _) [_; _]) => apply C_binop; [reflexivity | core_tac | core_tac]
-  | |- core _ _ (Op (OStatAccess _) [_]) => apply C_access; core_tac
-  | |- core _ _ (Num _) => apply C_num; reflexivity
-  | |- core _ _ (Enum _ None) => apply C_tag
-  | |- core _ _ (Enum _ (Some _)) => apply C_variant; core_tac
-  | |- core _ _ (Chunks _) =>
+  | |- core _ _ _ (Op (ONamed "bool/not") [_]) => apply C_not; core_tac
+  | |- core _ _ _ (Op (ONamed "string/replace") _) =>
+      apply (C_primop _ _ _ "%string/replace%"); [reflexivity | in_cases; core_tac]
+  | |- core _ _ _ (Op (ONamed _) [_; _]) => apply C_binop; [reflexivity | core_tac | core_tac]
+  | |- core _ _ _ (Op (OStatAccess _) [_]) => apply C_access; core_tac
+  | |- core _ _ _ (Num _) => apply C_num; reflexivity
+  | |- core _ _ _ (Enum _ None) => apply C_tag
+  | |- core _ _ _ (Enum _ (Some _)) => apply C_variant; core_tac
+  | |- core _ _ _ (Chunks _) =>
       apply C_chunks; [cbn; repeat split; discriminate | intros _; in_cases; try discriminate; congruence
                       | in_cases; try discriminate;
                         match goal with H : CExpr _ _ = CExpr _ _ |- _ => inversion H; subst end; core_tac]
-  | |- core _ _ (Array _) => apply C_array; in_cases; core_tac
-  | |- core _ _ (If _ _ _) => apply C_if; core_tac
-  | |- core _ _ (Fun _ _) => apply C_fun; [discriminate | in_cases; eexists; reflexivity | core_tac]
-  | |- core _ _ (Let _ _ _) =>
+  | |- core _ _ _ (Array _) => apply C_array; in_cases; core_tac
+  | |- core _ _ _ (If _ _ _) => apply C_if; core_tac
+  | |- core _ _ _ (Fun _ _) => apply C_fun; [discriminate | in_cases; eexists; reflexivity | core_tac]
+  | |- core _ _ _ (Let _ _ _) =>
       apply C_let; [discriminate
                    | in_cases; split; [split; [eexists; reflexivity | split; reflexivity] | cbn [b_val]; core_tac]
                    | core_tac]
-  | |- core _ _ (Annot _ _) =>
+  | |- core _ _ _ (Annot _ _) =>
       apply C_annot; [reflexivity | core_tac | cbn [a_typ]; intros ? E; try discriminate; inversion E; subst; core_ty_tac
                      | cbn [a_ctrs]; in_cases; core_ty_tac]
-  | |- core _ _ (Record [] _ false) =>
+  | |- core _ _ _ (Record [] _ false) =>
       apply C_record; in_cases; eexists; (split; [eexists; reflexivity | core_tac])
-  | |- core _ _ _ => constructor
+  | |- core _ _ _ _ => constructor
   end
 with core_ty_tac :=
   lazymatch goal with
-  | |- core_ty _ _ (TContract _) => apply CT_contract; [core_tac | reflexivity]
-  | |- core_ty _ _ (TArrow _ _) => apply CT_arrow; core_ty_tac
-  | |- core_ty _ _ (TArrayT _) => apply CT_array; core_ty_tac
-  | |- core_ty _ _ _ => constructor
+  | |- core_ty _ _ _ (TContract _) => apply CT_contract; [core_tac | reflexivity]
+  | |- core_ty _ _ _ (TArrow _ _) => apply CT_arrow; core_ty_tac
+  | |- core_ty _ _ _ (TArrayT _) => apply CT_array; core_ty_tac
+  | |- core_ty _ _ _ _ => constructor
   end.
 
-Example ex_core_in_fragment : core infix_ops repaired_code ex_core.
+Example ex_core_in_fragment : core primops infix_ops repaired_code ex_core.
 Proof. unfold ex_core. core_tac. Qed.
 
 Example ex_core_roundtrip : pa repaired_code (pr repaired_code ex_core) = Some ex_core.
